@@ -48,6 +48,33 @@ let run (args : (string * string) list) : string =
   let cuts = match get_opt args "cuts" with Some c -> ints_of_string c | None -> [0; nn] in
   let res = Buffer.create 256 in
   let add k v = Buffer.add_string res (" " ^ k ^ "=" ^ v) in
+  let status = match get_opt args "status" with Some s -> s | None -> "ok" in
+  let is_dataset = get_opt args "path" = Some "dataset" in
+  if status <> "ok" then begin
+    (* an error return is legitimate exactly when the format cannot express the codes *)
+    add "refusal" (ok (not (representable le cs)));
+    Buffer.contents res
+  end else begin
+  if not is_dataset then add "refusal" (ok (representable le cs));
+  (* the properties text: the model's text for the same statistics, float keys dropped *)
+  (match get_opt args "props" with
+   | Some ph when not is_dataset ->
+     let itext = string_of_hex ph in
+     let float_keys = ["avgref="; "avgdist="; "bitsperlink="; "bitspernode="; "compratio="] in
+     let starts l k = String.length l >= String.length k && String.sub l 0 (String.length k) = k in
+     let lines = String.split_on_char '\n' itext in
+     let kept = List.filter (fun l -> not (List.exists (starts l) float_keys)) lines in
+     let itext' = String.concat "\n" kept in
+     let f = { fl_codes = cs; fl_window = p.window;
+               fl_maxref = (match p.max_ref with None -> n_usize_max | Some m -> m); fl_minlen = p.min_len } in
+     let st0 = { s_nodes = n_of_int nn; s_arcs = n_of_int (get_int args "arcs"); s_bits = n_of_int glen } in
+     (match to_props le st0 f with
+      | Some mt -> add "props" (ok (string_of_coq mt = itext'))
+      | None -> add "props" "FAIL(model-refuses)");
+     (match parse_properties le (coq_of_string itext) with
+      | Some ((pn, pa), pf) -> add "propsback" (ok (pn = st0.s_nodes && pa = st0.s_arcs && pf = f))
+      | None -> add "propsback" "FAIL(unparsable)")
+   | _ -> ());
   (* 1. decode with the model decoder (pure list-of-bits reader when small) *)
   let decoded =
     if glen <= 400000 then begin
@@ -125,3 +152,4 @@ let run (args : (string * string) list) : string =
        add "nrefs" (string_of_int (List.length (List.filter (fun d -> d <> N0) sel)))
      end);
   Buffer.contents res
+  end
